@@ -329,6 +329,23 @@ func (e *Engine) callbackIteration(fr *Frame, st *State, ins ssa.Instruction, ke
 			}
 			cargs = append(cargs, v)
 		}
+		// `requires` clauses of the closure's contract are ASSUMED of the item handed to the callback (what the
+		// collection holds is not modelled; such a clause is an assumption about its content, listed in the evidence)
+		if cc != nil && len(cc.Requires) > 0 {
+			vars := map[string]SVal{}
+			for i := 0; i < cfn.Signature.Params().Len(); i++ {
+				vars[cfn.Signature.Params().At(i).Name()] = SVal{V: cargs[i], T: cfn.Signature.Params().At(i).Type()}
+			}
+			for _, r := range cc.Requires {
+				env := envOf(body)
+				for k, v := range vars {
+					env.vars[k] = v
+				}
+				env.paramsFirst = true
+				body.assume(env.evalBool(r.E))
+				e.note("assumed of every item the callback of " + key + " in " + fnKey + " receives: " + r.Src)
+			}
+		}
 		nf := e.newFrame(cfn, fr, cc)
 		nf.free = clo.Bindings
 		outs := e.execFunc(nf, body, cargs)
